@@ -1,10 +1,34 @@
 package checks
 
 import (
+	"slices"
 	"testing"
+
+	"pgregory.net/rapid"
 
 	"verif/harness/pbt"
 )
+
+// genC04Schedule: the C06Schedule scenarios, half of them after a prefix that walks one group through fire, resolved
+// notification and destruction, holds the maintenance sweep at maint.destroyed (just before it removes the group from
+// the map) while the alert fires again, lets the sweep finish and then resolves the alert: whatever group the sweep
+// removed, no group outside the map may go on notifying the alert as firing.
+func genC04Schedule(t *rapid.T) c06Scenario {
+	sc := genC06(t)
+	if rapid.Bool().Draw(t, "sweepPrefix") {
+		if !slices.Contains(sc.Park, "maint.destroyed") {
+			sc.Park = append(sc.Park, "maint.destroyed")
+		}
+		a := rapid.IntRange(0, 3).Draw(t, "sweepAlert")
+		pre := []c06Step{{Op: "put", Alert: a, EndOff: 4}, {Op: "advance", Dt: 8}, {Op: "release"}, {Op: "release"},
+			{Op: "advance", Dt: sc.GroupInterval + 1}, {Op: "release"}, {Op: "release"},
+			{Op: "advance", Dt: sc.Maint + 1}, // the sweep reaches the destroyed group and parks
+			{Op: "put", Alert: a, EndOff: 300}, {Op: "release"}, {Op: "release"}, {Op: "release"},
+			{Op: "put", Alert: a, EndOff: -1}, {Op: "release"}, {Op: "release"}}
+		sc.Steps = append(pre, sc.Steps...)
+	}
+	return sc
+}
 
 // C04Schedule: the E4 schedules of C06Schedule judged for C04: once every dispatcher goroutine has been released and
 // the groups have settled, no notification lists as firing an alert whose last submitted version ended more than a
@@ -12,8 +36,8 @@ import (
 func TestC04Schedule(t *testing.T) {
 	pbt.Run(t, pbt.Spec[c06Scenario]{
 		Property: "C04", Name: "C04Schedule",
-		Rule: "the scenarios of C06Schedule (fire / resolve / re-fire of up to four label sets; dispatcher goroutines parked at the hook points around group creation, the maintenance sweep and flush completion and released in a generated order). Judged here: after draining and settling, no notification made by a group that is not a member of the dispatcher's map lists as firing an alert whose last submitted version ended more than group_interval earlier (kind stale-firing-notification; the same from a regular group is judged by C14Schedule). Non-trivial: two goroutines were inside groupAlert for creation at once.",
-		Gen:  genC06,
+		Rule: "the scenarios of C06Schedule (fire / resolve / re-fire of up to four label sets; dispatcher goroutines parked at the hook points around group creation, the maintenance sweep and flush completion and released in a generated order; half of the cases after a prefix in which the maintenance sweep is held just before it removes a destroyed group while the group's alert fires again and is resolved afterwards). Judged here: after draining and settling, no notification made by a group that is not a member of the dispatcher's map lists as firing an alert whose last submitted version ended more than group_interval earlier (kind stale-firing-notification; the same from a regular group is judged by C14Schedule). Non-trivial: two goroutines were inside groupAlert for creation at once.",
+		Gen:  genC04Schedule,
 		Exec: func(sc c06Scenario) pbt.Result {
 			res := execC06(sc)
 			kept := res.Violations[:0]
